@@ -214,6 +214,7 @@ Proof.
   unfold item_list in Hp. destruct (sig_item sch input cross p) as [[kv|]|] eqn:Es; try contradiction.
   destruct Hp as [->|[]]. unfold sig_item in Es.
   destruct (get_field sch input (segments (pystrip p))) as [rf|] eqn:Eg; [|discriminate].
+  destruct (attr_path sch input (segments (pystrip p))) as [ks|]; [|discriminate].
   destruct (cross && negb (r_primitive rf)); [discriminate|]. inversion Es. simpl. eapply get_field_wf; eauto.
 Qed.
 
@@ -696,6 +697,7 @@ Proof.
     unfold item_list in Hp. destruct (sig_item sch input true p) as [[kv|]|] eqn:Es; try contradiction.
     destruct Hp as [->|[]]. unfold sig_item in Es.
     destruct (get_field sch input (segments (pystrip p))) as [rf|]; [|discriminate].
+    destruct (attr_path sch input (segments (pystrip p))) as [ks|]; [|discriminate].
     simpl in Es. destruct (r_primitive rf) eqn:Pr; simpl in Es; [|discriminate]. inversion Es. simpl. exact Pr. }
   split; [|exact P]. intros kf Hkf. specialize (WF kf Hkf). specialize (P kf Hkf).
   unfold rfield_wf in WF. rewrite P in WF. destruct (r_map (snd kf)); [|reflexivity].
@@ -899,6 +901,172 @@ Qed.
 Local Transparent emit_sync emit_async.
 
 (* ================================================================================================ *)
+(* E2. every segment of a key is the attribute name of its own field (repaired in /repo by 318bb4b) *)
+(* ================================================================================================ *)
+Local Open Scope string_scope.
+
+Lemma srev_acc_twice s : forall a b, srev_acc (srev_acc s a) b = srev_acc a (s ++ b).
+Proof.
+  induction s as [|c s IH]; intros a b; simpl; [reflexivity|]. rewrite IH. reflexivity.
+Qed.
+
+Lemma srev_involutive s : srev (srev s) = s.
+Proof. unfold srev. rewrite srev_acc_twice. simpl. apply sapp_nil_r. Qed.
+
+(* splitting text that has no separator before its first separator *)
+Lemma split_on_acc_prefix c a : forall acc rest,
+  contains c a = false ->
+  split_on_acc c (a ++ String c rest) acc = srev (srev_acc a acc) :: split_on_acc c rest "".
+Proof.
+  induction a as [|x a IH]; intros acc rest H; simpl in *.
+  - rewrite Ascii.eqb_refl. reflexivity.
+  - apply orb_false_iff in H as [H1 H2]. rewrite H1. rewrite IH; [reflexivity|assumption].
+Qed.
+
+Lemma split_on_acc_last c a : forall acc,
+  contains c a = false -> split_on_acc c a acc = [srev (srev_acc a acc)].
+Proof.
+  induction a as [|x a IH]; intros acc H; simpl in *; [reflexivity|].
+  apply orb_false_iff in H as [H1 H2]. rewrite H1. now apply IH.
+Qed.
+
+Lemma split_prefix c a rest : contains c a = false -> split_on c (a ++ String c rest) = a :: split_on c rest.
+Proof.
+  intro H. unfold split_on. rewrite split_on_acc_prefix; [|assumption]. f_equal. fold (srev a). apply srev_involutive.
+Qed.
+Lemma split_last c a : contains c a = false -> split_on c a = [a].
+Proof. intro H. unfold split_on. rewrite split_on_acc_last; [|assumption]. f_equal. apply srev_involutive. Qed.
+
+
+Fixpoint ends_us (s : string) : bool :=
+  match s with
+  | EmptyString => false
+  | String c EmptyString => Ascii.eqb c "_"%char
+  | String _ s' => ends_us s'
+  end.
+Lemma ends_us_app s : ends_us (s ++ "_") = true.
+Proof. induction s as [|c s IH]; [reflexivity|]. simpl. destruct (s ++ "_") eqn:E; [destruct s; discriminate|exact IH]. Qed.
+
+(* two facts about the regenerated lists (re-checked on every build): every Python keyword is a reserved name,
+   and no keyword ends with an underscore *)
+Lemma kw_reserved : forallb (fun k => mem_str k RESERVED_NAMES) KWLIST = true.
+Proof. vm_compute. reflexivity. Qed.
+Lemma kw_no_us : forallb (fun k => negb (ends_us k)) KWLIST = true.
+Proof. vm_compute. reflexivity. Qed.
+
+Lemma wrapper_not_kw f : is_kw (wrapper_name true f) = false.
+Proof.
+  unfold wrapper_name, is_kw. rewrite andb_true_r. destruct (reserved (f_pb f)) eqn:R.
+  - destruct (mem_str (f_pb f ++ "_") KWLIST) eqn:M; [|reflexivity].
+    apply mem_str_In in M. pose proof kw_no_us as H. rewrite forallb_forall in H. specialize (H _ M).
+    rewrite ends_us_app in H. discriminate.
+  - destruct (mem_str (f_pb f) KWLIST) eqn:M; [|reflexivity].
+    apply mem_str_In in M. pose proof kw_reserved as H. rewrite forallb_forall in H. specialize (H _ M).
+    unfold reserved in R. congruence.
+Qed.
+
+Definition nodot (s : string) : bool := negb (contains "."%char s).
+Definition msg_plain (m : message) : bool := forallb (fun f => nodot (f_pb f)) (m_fields m).
+(* the messages a path may walk through: proto-plus types whose field names are plain identifiers *)
+Definition all_proto_plus (sch : schema) : Prop :=
+  forall fqn m, assoc fqn sch = Some m -> m_proto_plus m = true /\ msg_plain m = true.
+
+Lemma dict_get_In m fs key : forall found f,
+  dict_get m fs key found = Some f -> In f fs \/ found = Some f.
+Proof.
+  induction fs as [|x fs IH]; intros found f H; simpl in H; [now right|].
+  apply IH in H as [H|H]; [left; now right|].
+  destruct (String.eqb (wrapper_name (m_proto_plus m) x) key); [inversion H; left; now left|now right].
+Qed.
+Lemma msg_field_In m key f : msg_field m key = Some f -> In f (m_fields m).
+Proof. intro H. apply dict_get_In in H as [H|H]; [assumption|discriminate]. Qed.
+
+Lemma contains_app_us c s : contains c (s ++ "_") = contains c s || Ascii.eqb "_"%char c.
+Proof. rewrite contains_app. simpl. now rewrite orb_false_r. Qed.
+
+Lemma wrapper_nodot pp f : nodot (f_pb f) = true -> nodot (wrapper_name pp f) = true.
+Proof.
+  unfold wrapper_name, nodot. intro H. destruct (reserved (f_pb f) && pp); [|assumption].
+  rewrite contains_app_us. apply negb_true_iff in H. rewrite H. reflexivity.
+Qed.
+
+Definition seg_ok (s : string) : Prop := is_kw s = false /\ nodot s = true.
+
+Lemma attr_path_spec sch : all_proto_plus sch -> forall path m ks,
+  m_proto_plus m = true -> msg_plain m = true -> attr_path sch m path = Some ks ->
+  Forall seg_ok ks /\ ks <> [] /\
+  (forall rf, get_field sch m path = Some rf -> exists pre, ks = (pre ++ [r_name rf])%list).
+Proof.
+  intro AP. induction path as [|first rest IH]; intros m ks PP PL H; simpl in H; [discriminate|].
+  simpl. destruct (msg_field m (if reserved first && m_proto_plus m then first ++ "_" else first)) as [cursor|] eqn:Em; [|discriminate].
+  assert (OK : seg_ok (wrapper_name (m_proto_plus m) cursor)).
+  { split; [rewrite PP; apply wrapper_not_kw|]. apply wrapper_nodot.
+    unfold msg_plain in PL. rewrite forallb_forall in PL. apply PL. eapply msg_field_In; eauto. }
+  destruct rest as [|r rest'].
+  - inversion H; subst ks. split; [repeat constructor; apply OK|]. split; [discriminate|].
+    intros rf Hrf. inversion Hrf. exists []%list. reflexivity.
+  - destruct (f_repeated cursor); [discriminate|].
+    destruct (f_type cursor) as [| |fqn]; try discriminate.
+    destruct (assoc fqn sch) as [m'|] eqn:Ea; [|discriminate].
+    destruct (attr_path sch m' (r :: rest')) as [ks'|] eqn:Ep; [|discriminate].
+    inversion H; subst ks. destruct (AP fqn m' Ea) as [PP' PL'].
+    destruct (IH m' ks' PP' PL' Ep) as (F & NE & L).
+    split; [constructor; [apply OK|exact F]|]. split; [discriminate|].
+    intros rf Hrf. destruct (L rf Hrf) as [pre ->]. exists (wrapper_name (m_proto_plus m) cursor :: pre)%list. reflexivity.
+Qed.
+
+Lemma segments_sjoin ks : ks <> [] -> Forall (fun s => nodot s = true) ks -> segments (sjoin "." ks) = ks.
+Proof.
+  unfold segments. induction ks as [|a ks IH]; intros NE F; [contradiction|].
+  inversion F as [|x xs Ha Hks]; subst.
+  unfold nodot in Ha. apply negb_true_iff in Ha.
+  destruct ks as [|b ks'].
+  - simpl. now apply split_last.
+  - change (sjoin "." (a :: b :: ks')) with (a ++ String "."%char (sjoin "." (b :: ks'))).
+    rewrite split_prefix; [|assumption]. f_equal. apply IH; [discriminate|assumption].
+Qed.
+
+(* the positive statement that replaces C05_reserved_segment_refuted *)
+Lemma reserved_segments_ok sch input cross sigs m :
+  all_proto_plus sch -> m_proto_plus input = true -> msg_plain input = true ->
+  fields_mapping sch input cross sigs = Some m ->
+  (forall kf, In kf m -> exists ks pre,
+      fst kf = sjoin "." ks /\ segments (fst kf) = ks /\ Forall (fun s => is_kw s = false) ks /\
+      ks = (pre ++ [r_name (snd kf)])%list) /\
+  (forall v pp, keys_ok (emit v m cross pp) = true).
+Proof.
+  intros AP PP PL H.
+  assert (K : forall kf, In kf m -> exists ks pre,
+      fst kf = sjoin "." ks /\ segments (fst kf) = ks /\ Forall (fun s => is_kw s = false) ks /\
+      ks = (pre ++ [r_name (snd kf)])%list).
+  { pose proof H as H0. unfold fields_mapping in H0.
+    destruct (seq_items sch input cross (all_pieces sigs)) as [l|] eqn:E; [|discriminate].
+    inversion H0; subst m. apply seq_items_spec in E as [E _]. intros kf Hin. apply odict_In in Hin.
+    rewrite E in Hin. apply in_flat_map in Hin as [p [_ Hp]].
+    unfold item_list in Hp. destruct (sig_item sch input cross p) as [[kv|]|] eqn:Es; try contradiction.
+    destruct Hp as [->|[]]. unfold sig_item in Es.
+    destruct (get_field sch input (segments (pystrip p))) as [rf|] eqn:Eg; [|discriminate].
+    destruct (attr_path sch input (segments (pystrip p))) as [ks|] eqn:Ea; [|discriminate].
+    destruct (cross && negb (r_primitive rf)); [discriminate|]. inversion Es; subst kf. simpl.
+    destruct (attr_path_spec sch AP _ input ks PP PL Ea) as (F & NE & L).
+    destruct (L rf Eg) as [pre Hpre]. exists ks, pre. split; [reflexivity|].
+    assert (F1 : Forall (fun s => nodot s = true) ks) by (eapply Forall_impl; [|exact F]; intros a [_ Ha]; exact Ha).
+    assert (F2 : Forall (fun s => is_kw s = false) ks) by (eapply Forall_impl; [|exact F]; intros a [Ha _]; exact Ha).
+    split; [now apply segments_sjoin|]. split; assumption. }
+  split; [exact K|]. intros v pp.
+  destruct (fields_mapping_spec _ _ _ _ _ H) as [items (_ & _ & ND & _)].
+  pose proof (fields_mapping_wf _ _ _ _ _ H) as WF.
+  assert (C : v = Async -> cross = true -> no_maps m).
+  { intros _ ->. apply (fields_mapping_cross_no_maps sch input sigs m H). }
+  destruct (emit_covers v m cross pp ND WF C) as (_ & F & _).
+  unfold keys_ok. apply forallb_forall. intros a Ha. destruct (F a Ha) as [kf [Hkf (_ & Hk & _)]].
+  destruct (K kf Hkf) as (ks & pre & _ & Hs & Fk & _). rewrite Hk, Hs.
+  apply forallb_forall. intros s0 Hs0. rewrite Forall_forall in Fk. now rewrite (Fk s0 Hs0).
+Qed.
+
+Local Open Scope list_scope.
+
+(* ================================================================================================ *)
 (* F. witnesses: the hypotheses hold of concrete mappings; the unrestricted statements are refuted  *)
 (* ================================================================================================ *)
 Local Open Scope string_scope.
@@ -998,11 +1166,24 @@ Qed.
 
 (* --- statements the faithful model violates: each is replayed on the implementation by the check (corpus/C05) --- *)
 
-(* a dotted path through a reserved word: request.class.title is not Python *)
-Lemma reserved_segment_refuted :
-  exists m, fields_mapping ex_sch (mkMsg true [msgf "class" ".p.Inner"]) false ["class.title"] = Some m /\
-            map fst m = ["class.title"] /\ keys_ok (emit Sync m false true) = false /\ keys_ok (emit Async m false true) = false.
-Proof. eexists. split; [vm_compute; reflexivity|]. vm_compute. repeat split. Qed.
+(* the former witness of the reserved-intermediate-segment defect (repaired in /repo by 318bb4b): the key takes the
+   attribute name of every segment, the parameter is still the leaf *)
+Lemma reserved_segment_example :
+  let input := mkMsg true [msgf "class" ".p.Inner"; scalar "name"] in
+  all_proto_plus ex_sch /\ m_proto_plus input = true /\ msg_plain input = true /\
+  exists m, fields_mapping ex_sch input false ["class.title, name"; "class.class"] = Some m /\
+            map fst m = ["class_.title"; "name"; "class_.class_"] /\ names m = ["title"; "name"; "class_"] /\
+            block_ok (emit Sync m false true) = true /\ block_ok (emit Async m false true) = true /\
+            (forall v, exec (emit v m false true) RNone [("title", LS "st")] = OSend (mkReq [("class_.title", LS "st")] ["class_"])).
+Proof.
+  simpl. split.
+  { intros fqn m H. simpl in H.
+    destruct (String.eqb fqn ".p.Inner"); [inversion H; split; reflexivity|].
+    destruct (String.eqb fqn ".p.Req"); [inversion H; split; reflexivity|discriminate]. }
+  split; [reflexivity|]. split; [reflexivity|].
+  eexists. split; [vm_compute; reflexivity|]. split; [vm_compute; reflexivity|]. split; [vm_compute; reflexivity|].
+  split; [vm_compute; reflexivity|]. split; [vm_compute; reflexivity|]. intros []; vm_compute; reflexivity.
+Qed.
 
 (* a flattened field called retry: duplicate argument *)
 Lemma control_name_refuted :
